@@ -263,6 +263,14 @@ static World* makeWorld(const JV& w, const string& dir) {
   W->messages->setResolver(W->scan);
   std::ostringstream csv;
   size_t k = 0;
+  // layout 5 (conditional variants): slots 1 and 2 are guarded by [h1] / [h2] on the value of the passive message in slot 3,
+  // whose name ends in the value that was seen on the bus ("hw1" / "hw2")
+  const bool condLay = w["lay"].i == 5;
+  if (condLay) {
+    const JV& hm = w["msgs"].a[2];
+    string hn = hm["n"].s;
+    csv << "*[h1],ca," << hn << ",,,,1\n*[h2],ca," << hn << ",,,,2\n";
+  }
   for (auto& m : w["msgs"].a) {
     Slot s; s.kind = m["k"].s; s.level = codes(m["lv"]);
     s.circuit = m["c"].t == JV::ARR ? codes(m["c"]) : m["c"].s;   // growth worlds carry texts as character codes
@@ -271,10 +279,12 @@ static World* makeWorld(const JV& w, const string& dir) {
     bool wr = s.kind == "w";
     s.id = {0xb5, 0x09, static_cast<uint8_t>(wr ? 0x0e : 0x0d), static_cast<uint8_t>(k)};
     s.value = static_cast<uint8_t>(0x10 + k);
+    if (condLay && k == 3) s.value = static_cast<uint8_t>(s.name[s.name.size() - 1] - '0');
     if (m["id"].t == JV::ARR) { s.id.clear(); for (auto& b : m["id"].a) s.id.push_back(static_cast<uint8_t>(b.i)); }   // PB SB ID..
     s.noinj = m["noinj"].i == 1;
     if (m["ans"].t == JV::ARR) { for (auto& b : m["ans"].a) s.ans.push_back(static_cast<uint8_t>(b.i)); if (!s.ans.empty()) s.value = s.ans[0]; }
     char idhex[16]; snprintf(idhex, sizeof idhex, "%02x%02x", s.id[2], s.id[3]);
+    if (condLay && k <= 2) csv << "[h" << k << "]";
     csv << s.kind << "," << s.circuit << (s.level.empty() ? "" : "#") << s.level << "," << s.name << ",,,08,b509," << idhex << ",v,"
         << (wr ? "m" : "s") << ",UCH\n";
     W->slots.push_back(s);
@@ -284,6 +294,11 @@ static World* makeWorld(const JV& w, const string& dir) {
   string err;
   result_t r = W->messages->readFromStream(&in, "world.csv", time(nullptr), false, nullptr, &err);
   if (r != RESULT_OK) { fprintf(stderr, "HARNESS: csv load failed: %s %s\n%s", getResultCode(r), err.c_str(), csvText.c_str()); exit(2); }
+  if (condLay) {
+    string cerr;
+    r = W->messages->resolveConditions(false, &cerr);
+    if (r != RESULT_OK) { fprintf(stderr, "HARNESS: conditions do not resolve: %s %s\n", getResultCode(r), cerr.c_str()); exit(2); }
+  }
   // ---- bus side
   W->bus = new BusHandler(W->messages, W->scan, opt.pollInterval);
   ebus_protocol_config_t config = {
@@ -317,6 +332,10 @@ static World* makeWorld(const JV& w, const string& dir) {
     SlaveSymbolString sl; sl.push_back(1); sl.push_back(s.value);
     W->proto->injectMessage(m, sl);
     if (s.msg->getLastUpdateTime() == 0) { fprintf(stderr, "HARNESS: passive inject failed\n"); exit(2); }
+  }
+  if (condLay) {   // vacuity guard: exactly the variant selected by the value on the bus is available
+    int hv = W->slots[2].value;
+    if (!W->slots[hv - 1].msg->isAvailable() || W->slots[2 - hv].msg->isAvailable()) { fprintf(stderr, "HARNESS: variant selection failed\n"); exit(2); }
   }
   // (injectMessage is meant for the time before the bus thread runs: the first SYN then resets the handler's buffers)
   W->tr->m_dynamic = w["dyn"].i == 1;
